@@ -147,14 +147,6 @@ func GetDocCommentOn(file *ast.File, obj types.Object) (cg *ast.CommentGroup, cl
 					}
 				}
 			}
-		case *ast.File:
-			if n.Doc != nil {
-				return n.Doc, func() {
-					if len(n.Doc.List) == 0 {
-						n.Doc = nil
-					}
-				}
-			}
 		}
 	}
 	return nil, func() {}
